@@ -384,7 +384,7 @@ func runC07(ctx *core.Ctx) {
 	ctx.Rule = "random policies; documents generated from each policy's own shadow vocabulary in canonical serialisation: every allowed element (explicit or pattern-matched), attributes drawn from the rules guaranteed to apply (element rules, else matching-pattern rules, plus global), values accepted by one randomly chosen rule among overlapping ones, canonical URLs of allowed schemes, clean style declarations accepted by one style rule, data attributes; oracle: output equals input byte for byte, managed attributes (rel/target under link options, crossorigin, sandbox, rewritten src) excepted; non-trivial = document has >= 1 element with >= 1 attribute, distinct by (policy, document)"
 	ctx.Assume("canonical serialisation = what x/net/html Token.String emits", "explicitly named elements ignore pattern rules (README)", "an element that can neither be bare nor receive an attribute under the policy is not generated")
 	opts := spec.GenOpts{Styles: true}
-	nPol, nDoc := ctx.N(5000, 25000), ctx.N(150, 400)
+	nPol, nDoc := ctx.N(5000, 60000), ctx.N(150, 400)
 	run := func(stream string, mk func(cs *core.Case) []spec.Op, n int) {
 		ctx.Run(stream, n, func(cs *core.Case) {
 			env := NewEnv(mk(cs))
